@@ -11,7 +11,8 @@ cls   := <name> <#bases> base* <#attrs> id* <#loads> (f a)*
 base  := L m c | E e | U
 ```
 operations
-* `names.bad <table>`            → `ok R <k> (m f n)* I <k> (m f t n)* A <k> (m c m' c' f a)* E <k> (m n kind)*`
+* `names.bad <table>`            → `ok R <k> (m f n)* I <k> (m f t n)* A <k> (m c m' c' f a)* E <k> (m n kind)* C <TTTT>`
+                                    (the last token: answers of checkRefs, checkImports, checkAttrs, checkAll)
 * `names.defined <m> <N> <table>`→ `ok id*` : the names `< N` that module `m` defines
 * `names.exports <m> <N> <table>`→ `ok id*` : the names `< N` a star import takes from `m`
 * `names.gen`                    → `ok <digest> ` + the `names.bad` answer for the compiled-in `Gen.Symtab.table`
@@ -97,7 +98,8 @@ def showBad (tbl : Table) : String :=
   "R " ++ toString r.length ++ showNats (r.flatMap (fun (m, f, n) => [m, f, n])) ++
   " I " ++ toString i.length ++ showNats (i.flatMap (fun (m, f, t, n) => [m, f, t, n])) ++
   " A " ++ toString a.length ++ showNats (a.flatMap (fun (m, c, m', c', f, x) => [m, c, m', c', f, x])) ++
-  " E " ++ toString e.length ++ showNats (e.flatMap (fun (m, n, k) => [m, n, k]))
+  " E " ++ toString e.length ++ showNats (e.flatMap (fun (m, n, k) => [m, n, k])) ++
+  " C " ++ showBool (checkRefs tbl) ++ showBool (checkImports tbl) ++ showBool (checkAttrs tbl) ++ showBool (checkAll tbl)
 
 def handle (toks : List String) : Option String :=
   match toks with
